@@ -108,6 +108,9 @@ func propC09(w *World, r *Report) {
 	checkIDRangeOffset(w, r)
 	checkSeg12Break(w, r)
 	checkLangField(w, r)
+	checkMacRoman(w, r)
+	checkExplicitDelta(w, r)
+	checkOverlapStrict(w, r, newBoundsRun(w))
 	RunSearchFields(w, r, map[string]bool{"(cmap.Format4).Encode": true})
 	r.Floor("searchfields", 3)
 	entries := mustFuncs(w, r, detEntries["C09"]...)
